@@ -11,6 +11,7 @@ Definition submitter (o : op) : addr :=
   | OPairUpdateDecimals _ c _ _ _ => c | ORouterOps c _ _ _ _ => c | ORouterOp c _ _ _ _ => c
   | ORouterAssertMin c _ _ _ _ => c | ORouterReceive c _ _ _ => c | OFacUpdateConfig c _ => c
   | OFacCreatePair c _ _ _ _ _ _ _ => c | OFacAddNative c _ _ => c | OFacMigrate c _ => c
+  | OSendFrom _ sp _ _ _ _ => sp | OBurnFrom _ sp _ _ => sp | ODecreaseAllowance _ ow _ _ => ow
   end.
 
 (* ------------------------------------------------------------------------------------ *)
@@ -61,6 +62,16 @@ Proof.
     apply router_exec_ops_keeps in H. keeps_chain.
 Qed.
 
+Lemma cw20_send_from_keeps w ta sp ow target n h w' : cw20_send_from w ta sp ow target n h = Ok w' -> keeps w w'.
+Proof.
+  intros H. unfold cw20_send_from in H. bnd H w1 H1. apply with_token_keeps in H1.
+  destruct (w_pairs w1 target) as [ps|].
+  - apply pair_receive_keeps in H. keeps_chain.
+  - destruct (target =? w_rtr w1); [|discriminate].
+    destruct h as [| |ops m to|]; try discriminate.
+    apply router_exec_ops_keeps in H. keeps_chain.
+Qed.
+
 Lemma fac_update_config_keeps w c o w' : fac_update_config w c o = Ok w' -> keeps w w'.
 Proof.
   unfold fac_update_config. destruct (negb _); [discriminate|]. intros H. inversion H.
@@ -103,6 +114,9 @@ Proof.
   - destruct h as [| |ops m to|]; try discriminate. eapply router_exec_ops_keeps. exact H.
   - eapply fac_update_config_keeps. exact H.
   - eapply fac_migrate_pair_keeps. exact H.
+  - eapply cw20_send_from_keeps. exact H.
+  - eapply with_token_keeps. exact H.
+  - eapply with_token_keeps. exact H.
 Qed.
 
 Lemma keeps_ext_RegOK w w' : RegOK w -> keeps w w' -> ext w w' -> RegOK w'.
